@@ -313,13 +313,20 @@ def r3(prog, run):
                           cfgx.describe_path(sd, path))
     cs = prog.fn(OC + '::closeSession')
     run.instance(rid)
+    # the "session is open" flag: the boolean member that openSession() sets (whatever it is called)
+    osn = prog.fn(OC + '::openSession')
+    flags = [osn.nodes[osn.skip(n['l'])]['f'] for _, n in osn.all_nodes('assign')
+             if osn.nodes[osn.skip(n['l'])]['k'] == 'mem' and osn.const_value(n['r']) == ('bool', True) and osn.nodes[osn.skip(n['l'])]['f'].startswith(OCP + '::')]
+    if not flags:
+        raise AnalysisBroken('C10.R3: openSession() sets no boolean member of the private class (session flag not found)')
+    session_flag = flags[0]
     need = {'sessionStarted=false': False, NS + 'StreamAckManager::onSessionClosed': False, NS + 'OutgoingIqManager::onSessionClosed': False, OC + '::disconnected': False}
 
     def always(nid):
         pos = cs.pos(nid)
         return bool(pos) and (pos[0] == cs.entry or ('b', pos[0]) in cs.pdom().get(('b', cs.entry), set()))
     for i, n in cs.all_nodes('assign'):
-        if cs.nodes[cs.skip(n['l'])].get('f') == OCP + '::sessionStarted' and cs.const_value(n['r']) == ('bool', False) and always(i):
+        if cs.nodes[cs.skip(n['l'])].get('f') == session_flag and cs.const_value(n['r']) == ('bool', False) and always(i):
             need['sessionStarted=false'] = True
     for i, n in cs.calls():
         if cs.cname(n) in need and always(i):
@@ -330,22 +337,49 @@ def r3(prog, run):
         run.violation(rid, 'closeSession#incomplete', cs.loc(), 'closeSession no longer does: %s' % [k.split('::')[-1] for k, v in need.items() if not v])
 
 
+def _must_call_deep(prog, fn, callee_q, byid, depth=0, seen=None):
+    """fn calls callee_q on every path, directly or inside a callee that is itself called on every path"""
+    seen = seen if seen is not None else set()
+    if fn.id in seen or depth > 3:
+        return False
+    seen.add(fn.id)
+
+    def always(nid):
+        pos = fn.pos(nid)
+        return bool(pos) and (pos[0] == fn.entry or ('b', pos[0]) in fn.pdom().get(('b', fn.entry), set()))
+    for i, n in fn.calls():
+        if not always(i):
+            continue
+        if fn.cname(n) == callee_q:
+            return True
+        for g in prog.callee_fns(fn, n):
+            if g.id in byid and _must_call_deep(prog, g, callee_q, byid, depth + 1, seen):
+                return True
+    return False
+
+
 def r4(prog, run):
     rid = run.rule('C10.R4', 'every new stream makes the client itself the element listener and resets the stream management negotiation state', floor=2)
     hs = prog.fn(OC + '::handleStart')
+    fns, byid = _scope(prog)
     run.instance(rid)
-    ok = False
-    for i, n in hs.all_nodes('assign'):
-        if hs.nodes[hs.skip(n['l'])].get('f') == OCP + '::listener' and hs.nodes[hs.skip(n['r'])]['k'] == 'this':
-            pos = hs.pos(i)
-            ok = pos[0] == hs.entry or ('b', pos[0]) in hs.pdom().get(('b', hs.entry), set())
-    if ok:
-        run.ok(rid, hs.loc(), 'handleStart: listener = this on every path')
+    # the listener is reset on every path (directly or in a helper executed on every path), and what is assigned is the client itself
+    ok = _must_reset(prog, hs, OCP + '::listener', byid)
+    self_assigned = False
+    for g in fns:
+        for i, n in g.all_nodes('assign'):
+            if g.nodes[g.skip(n['l'])].get('f') == OCP + '::listener':
+                r = g.nodes[g.skip(n['r'])]
+                if r['k'] == 'this' or (r['k'] == 'mem' and 'QXmppOutgoingClient *' in (r.get('t') or '')):
+                    top = g
+                    if _must_call_deep(prog, hs, top.qname, byid) or top.id == hs.id:
+                        self_assigned = True
+    if ok and self_assigned:
+        run.ok(rid, hs.loc(), 'handleStart: the client becomes the listener on every path')
     else:
         run.violation(rid, 'handleStart#listener', hs.loc(), 'a new stream keeps the previous listener (a stale authentication manager would see the new stream)')
     run.instance(rid)
-    oss = [i for i, n in hs.calls(NS + 'C2sStreamManager::onStreamStart')]
-    if oss and ('b', hs.pos(oss[0])[0]) in hs.pdom().get(('b', hs.entry), set()) | {('b', hs.entry)}:
+    if _must_call_deep(prog, hs, NS + 'C2sStreamManager::onStreamStart', byid):
         run.ok(rid, hs.loc(), 'handleStart: C2sStreamManager::onStreamStart() on every path')
     else:
         run.violation(rid, 'handleStart#onStreamStart', hs.loc(), 'stream management negotiation state is not reset for a new stream')
